@@ -12,6 +12,8 @@ import (
 	"os"
 	"path/filepath"
 	"regexp"
+	"runtime"
+	"runtime/pprof"
 	"sort"
 	"strings"
 	"sync"
@@ -583,6 +585,7 @@ func c19Values(ctx context.Context, body []byte, format string) ([]string, error
 		if err != nil {
 			return nil, err
 		}
+		defer sc.Pull(true)
 		return lk.Drain(sc)
 	}
 	zr, err := anyio.NewReaderWithOpts(zed.NewContext(), bytes.NewReader(body), demand.All(), anyio.ReaderOpts{Format: format})
@@ -703,6 +706,13 @@ func TestC19(t *testing.T) {
 	})
 	run.Set("histories", len(hs))
 
+	if f := os.Getenv("VERIF_HEAPPROF"); f != "" {
+		runtime.GC()
+		if w, err := os.Create(f); err == nil {
+			pprof.WriteHeapProfile(w)
+			w.Close()
+		}
+	}
 	if os.Getenv("VERIF_C19_ONLY_HISTORIES") != "" {
 		return // debugging aid: repeat part (1) alone
 	}
@@ -960,6 +970,8 @@ func TestC19(t *testing.T) {
 		}
 		var got []string
 		gotErr := ""
+		// (the scanner's reader goroutines and frame buffers are released only when it is told to stop)
+		defer sc.Pull(true)
 		for {
 			b, err := sc.Pull(false)
 			if err != nil {
